@@ -106,6 +106,18 @@ def check(case):
             results[("ratio", method, errors)] = _table(mf.ratio(method=method, errors=errors), case, ref)
     for key, tab in results.items():
         M.need(set(tab) == set(ref), f"{key}: control cells {sorted(tab)} != expected {sorted(ref)}")
+    # reading an aggregate again, in another order, gives the same answer (no call-history dependence)
+    order = case.get("reread", [])
+    keys = sorted(results, key=str)
+    for pos in order:
+        key = keys[pos % len(keys)]
+        if key[0] in ("min", "max"):
+            again = _table(getattr(mf, "group_" + key[0])(errors=key[1]), case, ref)
+        else:
+            again = _table(getattr(mf, key[0])(method=key[1], errors=key[2]), case, ref)
+        for ck in results[key]:
+            for a, b in zip(results[key][ck], again[ck]):
+                M.need(M.close(a, b, 0.0) or (pd.isna(a) and pd.isna(b)), f"{key}: second read gives {b!r}, first read gave {a!r} (read order {order})")
 
     for ck, (overall, groups) in ref.items():
         for j, it in enumerate(items):
@@ -196,7 +208,14 @@ def _same_weights(it):
     return True
 
 
-def _strategy():
+@st.composite
+def _strategy(draw):
+    c = draw(_base_strategy())
+    c["reread"] = draw(st.lists(st.integers(0, 11), min_size=0, max_size=4))
+    return c
+
+
+def _base_strategy():
     return M.mf_case(
         metric_keys=("selection_rate", "selection_rate", "wmean", "mean_prediction", "wmean", "count", "lin"),
         allow_collisions=False,
